@@ -97,6 +97,7 @@ class C07(Prop):
             o_cli = dict(case["opts"][0], plaintext=False)
             body_ = case["body"] if case["body"] is not None else gen_doc(case["body_seed"], case.get("body_profile", "core"), nblocks=(1, 3)).text
             self._cli(case, F + (case["gap"] + body_).replace("\n", nl), Fn, o_cli, col)
+            self._cli_multi(case, F + (case["gap"] + body_).replace("\n", nl), Fn, o_cli, col)
         body = case["body"] if case["body"] is not None else \
             gen_doc(case["body_seed"], case.get("body_profile", "core"), nblocks=(1, 3)).text
         B = case["gap"] + body
@@ -261,6 +262,49 @@ class C07(Prop):
         finally:
             import shutil
             shutil.rmtree(d, ignore_errors=True)
+
+    def _cli_multi(self, case, text, Fn, o, col):
+        """The document as one of several inputs of an in-place run, after files of other kinds (a .txt, a document without
+        frontmatter): what an earlier file was must not change how this one is treated."""
+        import contextlib
+        import io
+        import os
+        import shutil
+        import tempfile
+
+        from flowmark import cli
+        want = fm.fmt(text, **o)
+        if not isinstance(want, str):
+            return
+        argv = ["-w", str(o["width"]), "--list-spacing", o["list_spacing"]] + ["--" + k for k in ("semantic", "cleanups", "smartquotes", "ellipses") if o.get(k)]
+        for names in (["notes.txt", "post.md"], ["README.TXT", "plain.md", "post.md", "z.text"], ["post.md", "notes.txt"]):
+            d = tempfile.mkdtemp(prefix="vf-c07m-")
+            try:
+                for n in names:
+                    with open(os.path.join(d, n), "wb") as f:
+                        f.write(text.encode("utf-8", "surrogatepass") if n == "post.md" else b"Some   plain text here.\n\n- a\n- b\n")
+                old = os.getcwd()
+                os.chdir(d)
+                try:
+                    with contextlib.redirect_stdout(io.StringIO()), contextlib.redirect_stderr(io.StringIO()):
+                        try:
+                            rc = cli.main(argv + ["-i", "--nobackup"] + names)
+                        except SystemExit as e:
+                            rc = e.code
+                finally:
+                    os.chdir(old)
+                col.case()
+                col.mon("cli")
+                with open(os.path.join(d, "post.md"), "rb") as f:
+                    got = f.read().decode("utf-8", "surrogatepass")
+                if rc != 0:
+                    col.count("cli_nonzero_exit_left_to_C12")
+                elif got != want:
+                    dd = first_line_diff(want, got)
+                    col.violation("cli", "C07/cli-several-inputs/document-with-frontmatter-formatted-differently" + self.oddtag(case), dict(case, opts=[o], names=names),
+                                  {"line": dd[0] if dd else None, "want": (dd[1] or "")[:80] if dd else None, "got": (dd[2] or "")[:80] if dd else None})
+            finally:
+                shutil.rmtree(d, ignore_errors=True)
 
     @staticmethod
     def oddtag(case) -> str:
